@@ -44,8 +44,25 @@ func withTimeout(d time.Duration, f func()) (panicMsg string, timedOut bool) {
 	}
 }
 
+// a fixed valid script: whatever was parsed before it (also a text that made the parser panic), it has no errors
+const parserSentinel = "vars {\n account $a\n}\nsend [USD 1] (\n source = $a\n destination = @b\n)\n"
+
+func parserSentinelOK() bool {
+	ok := false
+	func() {
+		defer func() { recover() }()
+		ok = len(numscript.Parse(parserSentinel).GetParsingErrors()) == 0
+	}()
+	return ok
+}
+
 func observeParser(text string) J {
-	obs := J{"panic": "", "timeout": false, "nerr": 0, "errs": []any{}, "showpanic": ""}
+	obs := J{"panic": "", "timeout": false, "nerr": 0, "errs": []any{}, "showpanic": "", "sentinel": true}
+	defer func() {
+		if !parserSentinelOK() {
+			obs["sentinel"] = false
+		}
+	}()
 	var errs []numscript.ParserError
 	msg, to := withTimeout(10*time.Second, func() {
 		p := numscript.Parse(text)
@@ -165,6 +182,22 @@ func cmdEditCheck(args []string) {
 			die(2, "bad gen line: %v", err)
 		}
 		g.Text = widen(g.Text, n) // wider characters, same positions (TLC itself only carries Latin-1 safely)
+		switch n % 7 {
+		case 3, 5:
+			// the same document with CRLF line ends (5: cut right after its last carriage return): the same tokens, hence
+			// the same verdict; the line table counts the carriage return as a character of its line
+			if !strings.Contains(g.Text, "\r") && strings.Contains(g.Text, "\n") {
+				t := strings.ReplaceAll(g.Text, "\n", "\r\n")
+				if n%7 == 5 && strings.HasSuffix(t, "\r\n") {
+					t = t[:len(t)-1]
+				}
+				g.Text = t
+				g.Lines = nil
+				for _, l := range strings.Split(t, "\n") {
+					g.Lines = append(g.Lines, len([]rune(l)))
+				}
+			}
+		}
 		line := J{"e": "edit", "id": g.ID, "n": n, "text": g.Text, "lines": g.Lines, "lexok": g.LexOK, "accepts": g.Accepts, "unspec": g.Unspec}
 		if args[2] == "parser" {
 			line["obs"] = observeParser(g.Text)
